@@ -35,6 +35,78 @@ CHECKS = {
         design_ref="DESIGN.md §5 C01",
         note="Spec.parse is a hand transcription of the Standard (trusted, validated by WPT); parse_url_impl is compared, "
              "not modelled. IDNA answers inside the Spec come from ada::idna (C06)."),
+
+    "C03": dict(
+        technique="Lean 4 proof on the Spec of the API setters (invariant preservation, refusals, atomic-failure model) + "
+                  "WPT-validated Spec run against both URL types on generated histories",
+        text="Lean 4: Spec/Setters.lean transcribes the ten API setters (state-override parser), validated on every run "
+             "against all WPT setter vectors. Theorems (all values): every setter preserves the record invariants; the "
+             "Standard's refusals; protocol setter keeps special-ness and clears default ports; the setter layer's "
+             "work-then-rollback model is atomic on failure. Both URL types are compared with the Spec after every step of "
+             "generated histories (all getters, origin, flags), failed steps are checked to leave every observable "
+             "unchanged, and relative references are resolved against the object a history leaves behind.",
+        design_ref="DESIGN.md §5 C03",
+        note="Setter conformance rests on the correspondence with the validated Spec (differential); the C++ setters are "
+             "not modelled statement by statement."),
+    "C04": dict(
+        technique="lock-step differential of the two C++ types on generated histories; Lean theorems cover the shared "
+                  "Spec they are both compared to (C01/C03) and the setter-layer model",
+        text="The same (input, base, history) is applied to ada::url_aggregator and ada::url; after every operation return "
+             "value and every observable incl. host kind, opaque flag, href size and the eight offsets are compared "
+             "pairwise. Lean side: guard-model theorems (both types share the setter layer shape).",
+        design_ref="DESIGN.md §5 C04", category="proof",
+        note="The two representations are compared directly on generated histories (differential, generator-bounded); "
+             "the refinement proof url_aggregator -> record is part of C07's model."),
+    "C05": dict(
+        technique="Lean 4 proof of component laws (printable ASCII, re-encode identity, IPv4 round trip, opaque-path "
+                  "trailing space) + re-parse fixed point decided on the implementation",
+        text="Lean 4 theorems (all byte strings): every encoded component is printable ASCII, re-encoding is the identity "
+             "for every URL set, serialized IPv4 hosts re-parse to themselves (all 2^32), the opaque path state never "
+             "leaves a space before ?/#, paths begin with '/'. The composed fixed point parse(href)=same is evaluated on "
+             "the implementation for every generated and WPT (input, base) on both types, with the ASCII scan.",
+        design_ref="DESIGN.md §5 C05",
+        note="The composition theorem Spec.parse (href u) = u is stated (fixed_point_statement) but not proved; it is "
+             "decided per generated input on the implementation."),
+    "C07": dict(
+        technique="partition / re-assembly / validate() predicates evaluated on the implementation after every step of "
+                  "generated histories incl. copies; Lean guard-model theorems",
+        text="After every operation of generated parse/set_*/clear_*/copy histories the offsets must partition the href, "
+             "getters equal their slices, re-assembly from getters reproduces the href, href size = length, validate() "
+             "accepts, and copies stay unchanged. (The Lean refinement model of the single-buffer editors is being built; "
+             "until it lands this check is the behavioural part.)",
+        design_ref="DESIGN.md §5 C07", category="proof",
+        note="Editors are exercised through the public API; copy-independence is a runtime fact outside the model."),
+    "C09": dict(
+        technique="Lean 4: decide over the parser-exit table regenerated from src/parser.cpp + guard-model theorems; "
+                  "step-by-step limit semantics on the implementation",
+        text="Gen/ParserExits.lean is re-extracted from parse_url_impl on every run; a theorem (decide) shows every exit "
+             "that can hand out a valid stored URL is dominated by the size check (the dead AUTHORITY tail is justified by "
+             "a 256-case table theorem). The setter layer model proves bounded / atomic / transparent for every history. "
+             "The implementation is run under limits within +-2 of every size involved and each step is compared with the "
+             "same step on a copy with the limit lifted.",
+        design_ref="DESIGN.md §5 C09",
+        note="The exit table is syntactic (text walker over parser.cpp); the setter shape is modelled and tied by the "
+             "step-by-step correspondence."),
+    "C10": dict(
+        technique="Lean 4 proof: IPv4 round trip for all 2^32 addresses by arithmetic, host-parser well-formedness; "
+                  "Spec host parsers vs implementation on host-centred cases",
+        text="Lean 4: Spec/Host.lean transcribes the IPv4/IPv6/host parsers and serializers over Nat. Theorems: "
+             "ipv4Parse(ipv4Serialize a)=a for every a<2^32, serialized addresses end in a number, parsed hosts are "
+             "well-formed/non-empty; decided boundary tables for number forms, IPv6 compression and DNS length. The "
+             "implementation is compared with the Spec on href, host, port, host kind and has_valid_domain for hosts "
+             "parsed, inherited from a base and replaced by setters, and every produced IP href is re-parsed.",
+        design_ref="DESIGN.md §5 C10",
+        note="parse_ipv4/parse_ipv6 C++ kernels are compared, not modelled; IPv6 round trip is not yet a theorem."),
+    "C19": dict(
+        technique="Lean 4 proof by case analysis over the Spec parser and induction over setter histories; RecInv "
+                  "evaluated on the implementation after every operation",
+        text="Lean 4 theorems at full strength on the Spec: Spec.parse establishes RecInv for every input and every base "
+             "satisfying it; each of the ten API setters preserves it for every value; hence every object reachable by "
+             "parse (with a parsed base) followed by any setter history satisfies it. The same predicate is evaluated on "
+             "both C++ types after every step of generated histories.",
+        design_ref="DESIGN.md §5 C19",
+        note="The theorems are about the Spec (validated transcription); the C++ is tied by C01/C03 correspondence and by "
+             "evaluating the predicate on the implementation."),
 }
 
 NOT_YET = "check not built yet (work in progress in this session; see DESIGN.md §8 build order)"
